@@ -14,8 +14,8 @@ EXPLANATION = (
     'to the function as Expr objects built from the *bound method* eval - no call of .eval on those argument nodes on the '
     'thunk branches, also not inside helpers called there; the cast for XlExpr does not call its argument; (C10.2) on every '
     'path through IF the condition thunk is called exactly once and exactly one branch thunk is called, chosen by the '
-    'condition; (C10.3) AND/OR call each thunk inside the loop (one per iteration), the decisive return is inside the loop, '
-    'and the only elements skipped are blanks; NOT negates the truth value of its single thunk; (C10.4) defaults of thunk '
+    'condition; (C10.3) AND/OR, partially evaluated on recording thunks for short sequences of truth values, blanks and '
+    'array members: thunks are called left to right, none after the decisive one, and the only elements skipped are blanks; NOT negates the truth value of its single thunk; (C10.4) defaults of thunk '
     'parameters are callable Expr objects (validate_args does not convert defaults); (C10.5) the result of every thunk call '
     'in IF/AND/OR/NOT is tested for being an error value before its truth value is taken.')
 NOT_DECIDED = 'truth tables over concrete values and blanks'
